@@ -47,6 +47,11 @@ func (im *Impl) Rebuilding() bool { return im.rb != nil }
 // Swapped reports whether the rebuilt replica has become the replica under test.
 func (im *Impl) Swapped() bool { return im.rb != nil && im.rb.swapped }
 
+// Mapped / Promoted / Aborted: how far the rebuild has got.
+func (im *Impl) Mapped() bool   { return im.rb != nil && im.rb.mapped }
+func (im *Impl) Promoted() bool { return im.rb != nil && im.rb.promoted }
+func (im *Impl) Aborted() bool  { return im.rb != nil && im.rb.aborted }
+
 // Cleanup removes the directories of replicas created for rebuilds.
 func (im *Impl) Cleanup() {
 	if im.rb != nil {
@@ -386,6 +391,8 @@ func (im *Impl) Exec(line string) (out string) {
 		return im.rbReload()
 	case "lunmap":
 		return im.rbLunmap()
+	case "lunmapw":
+		return im.rbLunmapW(atoi(w[1]), atoi(w[2]), atoi(w[3]))
 	case "rbpromote":
 		return im.rbPromote()
 	case "rbend":
